@@ -80,9 +80,89 @@ fn position_case(g: &mut Gen, ctx: &mut Ctx) -> CaseResult {
     Ok(())
 }
 
+/// The outcome for a header map does not depend on which structure carries it either: stand-alone,
+/// or in the protected / unprotected bucket of a recipient nested 1-4 levels below a COSE_Encrypt,
+/// COSE_Mac or COSE_recipient, or of a signer of a COSE_Sign.  The content may hold a chain of
+/// counter-signatures of any depth up to the decoder's bound (and one beyond): nesting of recipients
+/// and nesting of counter-signatures are unrelated.
+fn carrier_position_case(g: &mut Gen, ctx: &mut Ctx) -> CaseResult {
+    let d = *g.pick(&[0usize, 1, 2, 4, 6, 7, 8, 8, 9]);
+    let mut content = match if d == 0 { gen_header(g, &mut Faults::none(), 1) } else { crate::props::structs::countersig_chain_header(g, d) } {
+        Item::Map(m) => m,
+        _ => vec![],
+    };
+    if d > 0 && g.bool() {
+        if let Item::Map(extra) = gen_header(g, &mut Faults::none(), 0) {
+            for (k, v) in extra {
+                if k != Item::Int(7) && !content.iter().any(|(k2, _)| k2 == &k) {
+                    content.push((k, v));
+                }
+            }
+        }
+    }
+    let content = Item::Map(content);
+    let (b0, _) = plain(&content);
+    let r0 = Header::from_slice(&b0);
+    let protected = g.bool();
+    let slots = |sig_like: bool, inner: Option<Item>| -> Item {
+        let (p, u) = if protected { (Wrapped::new(content.clone()), Item::Map(vec![])) } else { (Item::Bytes(vec![]), content.clone()) };
+        let mut v = vec![p, u, if sig_like { Item::Bytes(vec![1]) } else { Item::Null }];
+        if let Some(i) = inner {
+            v.push(Item::Array(vec![i]));
+        }
+        Item::Array(v)
+    };
+    let r = 1 + g.below(4);
+    let which = g.below(4);
+    let (top, what): (Item, &str) = match which {
+        0 => {
+            // signer of a COSE_Sign
+            (Item::Array(vec![Item::Bytes(vec![]), Item::Map(vec![]), Item::Null, Item::Array(vec![Item::Array(vec![Item::Bytes(vec![]), Item::Map(vec![]), Item::Bytes(vec![2])]), slots(true, None)])]), "a signer of a COSE_Sign")
+        }
+        _ => {
+            let mut rec = slots(false, None);
+            for _ in 1..r {
+                rec = Item::Array(vec![Item::Bytes(vec![]), Item::Map(vec![]), Item::Null, Item::Array(vec![rec])]);
+            }
+            match which {
+                1 => (Item::Array(vec![Item::Bytes(vec![]), Item::Map(vec![]), Item::Null, Item::Array(vec![rec])]), "a recipient nested below a COSE_Encrypt"),
+                2 => (Item::Array(vec![Item::Bytes(vec![]), Item::Map(vec![]), Item::Null, Item::Bytes(vec![3]), Item::Array(vec![rec])]), "a recipient nested below a COSE_Mac"),
+                _ => (Item::Array(vec![Item::Bytes(vec![]), Item::Map(vec![]), Item::Null, Item::Array(vec![rec])]), "a recipient nested below a COSE_recipient"),
+            }
+        }
+    };
+    let (bn, _) = plain(&top);
+    ctx.classf(format!("carrier-position:{}:{}-levels:chain-{}", which, if which == 0 { 1 } else { r }, d));
+    ctx.nontrivial(hash_str(&format!("cpos|{}|{}|{}|{}", which, r, protected, hex_trunc(&b0, 400))));
+    ctx.sample_with(|| format!("header (counter-signature chain of {}) stand-alone vs in the {} bucket of {} ({} levels): {}", d, if protected { "protected" } else { "unprotected" }, what, r, hex_trunc(&b0, 40)));
+    // walk to the header in the decoded carrier
+    fn pick<'a>(rs: &'a [coset::CoseRecipient], left: usize) -> Option<&'a coset::CoseRecipient> {
+        let r = rs.first()?;
+        if left <= 1 { Some(r) } else { pick(&r.recipients, left - 1) }
+    }
+    let got: Result<(Header, Option<Vec<u8>>), coset::CoseError> = match which {
+        0 => coset::CoseSign::from_slice(&bn).map(|v| { let s = &v.signatures[1]; if protected { (s.protected.header.clone(), s.protected.original_data.clone()) } else { (s.unprotected.clone(), None) } }),
+        1 => coset::CoseEncrypt::from_slice(&bn).map(|v| { let x = pick(&v.recipients, r).expect("recipient"); if protected { (x.protected.header.clone(), x.protected.original_data.clone()) } else { (x.unprotected.clone(), None) } }),
+        2 => coset::CoseMac::from_slice(&bn).map(|v| { let x = pick(&v.recipients, r).expect("recipient"); if protected { (x.protected.header.clone(), x.protected.original_data.clone()) } else { (x.unprotected.clone(), None) } }),
+        _ => coset::CoseRecipient::from_slice(&bn).map(|v| { let x = pick(&v.recipients, r).expect("recipient"); if protected { (x.protected.header.clone(), x.protected.original_data.clone()) } else { (x.unprotected.clone(), None) } }),
+    };
+    match (&r0, &got) {
+        (Ok(a), Ok((b, w))) => {
+            ensure!(same(a, b), "the same header map decodes differently stand-alone and in {} ({} levels)", what, r);
+            if protected {
+                ensure!(w.as_ref() == Some(&b0), "protected bytes of {} are not retained as received", what);
+            }
+        }
+        (Err(_), Err(_)) => {}
+        (Ok(_), Err(e)) => fail!("header map (counter-signature chain of {}) accepted stand-alone but rejected ({:?}) in the {} bucket of {} ({} levels): {}", d, e, if protected { "protected" } else { "unprotected" }, what, r, hex_trunc(&bn, 60)),
+        (Err(e), Ok(_)) => fail!("header map (counter-signature chain of {}) rejected stand-alone ({:?}) but accepted in {} ({} levels)", d, e, what, r),
+    }
+    Ok(())
+}
+
 fn case(g: &mut Gen, ctx: &mut Ctx) -> CaseResult {
     if g.ratio(1, 16) {
-        return position_case(g, ctx);
+        return if g.bool() { position_case(g, ctx) } else { carrier_position_case(g, ctx) };
     }
     let (mut faults, mode) = match g.weighted(&[4, 4, 2]) {
         0 => (Faults::none(), "valid"),
